@@ -275,6 +275,14 @@ def main(argv=None):
         return 2
 
     if args.replay:
+        # a replay runs under the hash seed the violation was found with (set layout is an input of some failures)
+        try:
+            want = str(json.load(open(args.replay)).get("pythonhashseed", "") or "")
+        except Exception:  # noqa: BLE001
+            want = ""
+        if want and want != os.environ.get("PYTHONHASHSEED", "") and not os.environ.get("PABU_REPLAY_REEXEC"):
+            env = dict(os.environ, PYTHONHASHSEED=want, PABU_REPLAY_REEXEC="1")
+            os.execve(sys.executable, [sys.executable, "-m", "harness.vcheck", pid, "--replay", args.replay], env)
         return replay(mod, pid, args.replay)
 
     # (1)-(3) Lean obligations
